@@ -92,7 +92,93 @@ def main():
         check(data.PredictedTag, dict(tag=tag, score=sc), ok, f"score={sc}")
         check(data.SoundEventPrediction, dict(sound_event=se(), score=sc), ok, f"score={sc}")
         check(data.SequencePrediction, dict(sequence=data.Sequence(), score=sc), ok, f"score={sc}")
-    return s.finish("one case per arrangement, each through constructor / dict / JSON; distinct by arrangement")
+    aoef_path(s, rec)
+    return s.finish("one case per arrangement, each through constructor / dict / JSON; AOEF documents edited field by field; distinct by arrangement")
+
+
+def aoef_path(s, rec):
+    """the fourth construction path: AOEF loading.  A valid collection is saved, ONE field of the JSON text is edited to the
+    value under test, and io.load must accept the document exactly when the invariant holds for the edited value."""
+    import copy
+    import json
+    import os
+    import tempfile
+    from soundevent import io
+    tmp = tempfile.mkdtemp(prefix="verif_c04_")
+    path = os.path.join(tmp, "doc.json")
+    clip = data.Clip(recording=rec, start_time=0, end_time=1)
+    clip2 = data.Clip(recording=rec, start_time=1, end_time=2)
+    se = lambda: data.SoundEvent(recording=rec, geometry=data.TimeInterval(coordinates=[0.1, 0.2]))
+    tag = data.Tag(key="species", value="x")
+    a0, a1 = data.SoundEventAnnotation(sound_event=se()), data.SoundEventAnnotation(sound_event=se())
+    p0 = data.SoundEventPrediction(sound_event=se(), score=0.5, tags=[data.PredictedTag(tag=tag, score=0.5)])
+    ca = data.ClipAnnotation(clip=clip, sound_events=[a0, a1])
+    cp = data.ClipPrediction(clip=clip, sound_events=[p0], tags=[data.PredictedTag(tag=tag, score=0.25)],
+                             sequences=[data.SequencePrediction(sequence=data.Sequence(sound_events=[p0.sound_event]), score=0.5)])
+    matches = [data.Match(source=p0, target=a0, affinity=0.5, score=0.5), data.Match(target=a1, affinity=0.0, score=0.0)]
+    ev = data.Evaluation(evaluation_task="t", score=0.5,
+                         clip_evaluations=[data.ClipEvaluation(annotations=ca, predictions=cp, matches=matches, score=0.5)])
+    proj = data.AnnotationProject(name="p", clip_annotations=[ca, data.ClipAnnotation(clip=clip2)],
+                                  tasks=[data.AnnotationTask(clip=clip), data.AnnotationTask(clip=clip2)])
+
+    def doc_of(obj):
+        io.save(obj, path)
+        return json.load(open(path))
+
+    def loads(doc):
+        json.dump(doc, open(path, "w"))
+        try:
+            io.load(path)
+            return True
+        except Exception:
+            return False
+
+    def check(key, doc, expected):
+        got = loads(doc)
+        s.case(None, ("aoef", key), sample=dict(path="aoef", key=key, expected=expected, loaded=got))
+        if got != expected:
+            s.fail(f"aoef:{key.split('=')[0]}:{expected}", f"AOEF loading {'accepted' if got else 'rejected'} a document with {key}; the invariant says {'accept' if expected else 'reject'}")
+    base_ev, base_proj = doc_of(ev), doc_of(proj)
+    check("unchanged evaluation", copy.deepcopy(base_ev), True)
+    check("unchanged project", copy.deepcopy(base_proj), True)
+    for field, where in (("affinity", "matches"), ("score", "matches"), ("score", "clip_evaluations"), ("score", "sound_event_predictions"),
+                         ("score", "sequence_predictions")):
+        for val in SCORES:
+            d = copy.deepcopy(base_ev)
+            if where not in d["data"] or not d["data"][where]:
+                s.fail(f"aoef:layout:{where}", f"the saved evaluation has no `{where}` list to edit")
+                continue
+            d["data"][where][0][field] = val
+            check(f"{where}[0].{field}={val}", d, 0 <= val <= 1)
+    for val in SCORES:     # predicted tag probabilities: [tag id, score] pairs
+        for where in ("sound_event_predictions", "clip_predictions"):
+            d = copy.deepcopy(base_ev)
+            d["data"][where][0]["tags"][0][1] = val
+            check(f"{where}[0].tags[0].score={val}", d, 0 <= val <= 1)
+    # matches of the clip evaluation: missing / duplicated / neither source nor target
+    d = copy.deepcopy(base_ev)
+    d["data"]["clip_evaluations"][0]["matches"] = d["data"]["clip_evaluations"][0]["matches"][:1]
+    check("clip evaluation with a match missing", d, False)
+    d = copy.deepcopy(base_ev)
+    d["data"]["clip_evaluations"][0]["matches"] = d["data"]["clip_evaluations"][0]["matches"] + d["data"]["clip_evaluations"][0]["matches"][:1]
+    check("clip evaluation with a match listed twice", d, False)
+    d = copy.deepcopy(base_ev)
+    for k in ("source", "target"):
+        d["data"]["matches"][1].pop(k, None)
+    d["data"]["sound_event_annotations"] = d["data"]["sound_event_annotations"]
+    check("match with neither source nor target", d, False)
+    # clip ordering
+    for a, b in ((0.0, 1.0), (1.0, 1.0), (1.0 + EPS, 1.0), (2.0, 1.0)):
+        d = copy.deepcopy(base_proj)
+        d["data"]["clips"][0]["start_time"], d["data"]["clips"][0]["end_time"] = a, b
+        check(f"clips[0] start={a} end={b}", d, not (a > b))
+    # a project must have a task for every annotated clip
+    d = copy.deepcopy(base_proj)
+    d["data"]["tasks"] = d["data"]["tasks"][:1]
+    check("annotation project with an annotated clip without task", d, False)
+    for f in os.listdir(tmp):
+        os.unlink(os.path.join(tmp, f))
+    os.rmdir(tmp)
 
 
 if __name__ == "__main__":
